@@ -615,7 +615,7 @@ fn c18_decode(t: &mut Tctx, schema: &OwnedDataModelType, shape: &Shape, nodes: u
     t.st.eval();
     t.st.count(&format!("bytes_{}", class));
     t.st.nontrivial(fp_mix(fp(format!("{:?}", schema).as_bytes()), fp(input)));
-    t.crumb.set(&format!("kind: c18-decode\nschema: {:?}\nbytes: {}", schema, hex(input)));
+    t.crumb.set(&format!("kind: c18-decode\nshape: {}\nbytes: {}", shape.text(), hex(input)));
     let (r, al) = count_allocs(|| catch(|| from_slice_dyn(schema, input)));
     t.crumb.clear();
     match r {
@@ -664,7 +664,7 @@ fn c18_encode(t: &mut Tctx, schema: &OwnedDataModelType, shape: &Shape, class: &
     t.st.eval();
     t.st.count(&format!("json_{}", class));
     t.st.nontrivial(fp_mix(fp(format!("{:?}", schema).as_bytes()), fp(json.to_string().as_bytes())));
-    t.crumb.set(&format!("kind: c18-encode\nschema: {:?}\njson: {}", schema, json));
+    t.crumb.set(&format!("kind: c18-encode\nshape: {}\njson: {}", shape.text(), json));
     let r = catch(|| to_stdvec_dyn(schema, json));
     t.crumb.clear();
     let mut k = "other";
